@@ -27,8 +27,8 @@ CONSTANTS Focus, FocusDetails
 
 InFocus(c) == c[1] \in Focus \/ c[2] \in FocusDetails
 
-VARIABLES l, st, err, cls, skipped
-tvars == <<l, st, err, cls, skipped>>
+VARIABLES l, st, err, cls, skipped, dgs, pdg
+tvars == <<l, st, err, cls, skipped, dgs, pdg>>
 
 OK == <<"ok", "">>
 AllGroups == {"Op", "Snapshot", "Revert", "Guard", "Commit", "Delete", "Discard"}
@@ -52,7 +52,7 @@ WorldOf(e) ==
 
 st0 == NewStateDB(WorldOf([accts |-> EmptyFn, supply |-> 0, supply2 |-> 0, allow |-> EmptyFn]), 0)
 
-TraceInit == l = 1 /\ st = st0 /\ err = <<>> /\ cls = EmptyFn /\ skipped = <<>>
+TraceInit == l = 1 /\ st = st0 /\ err = <<>> /\ cls = EmptyFn /\ skipped = <<>> /\ dgs = <<>> /\ pdg = ""
 
 T(c, x) == IF c THEN <<x>> ELSE <<>>
 
@@ -102,6 +102,7 @@ DoInit ==
   /\ Ev.ev = "Init"
   /\ st' = [NewStateDB(WorldOf(Ev.w), Ev.now) EXCEPT !.lost = FALSE]
   /\ cls' = Bump(cls, "traces")
+  /\ dgs' = <<>> /\ pdg' = Ev.pdg
   /\ UNCHANGED <<err, skipped>>
 
 GroupOf(o) == CASE o.op = "Revert" -> "Revert" [] o.op = "Snapshot" -> "Snapshot" [] o.op = "Commit" -> "Commit"
@@ -109,7 +110,7 @@ GroupOf(o) == CASE o.op = "Revert" -> "Revert" [] o.op = "Snapshot" -> "Snapshot
 
 DoOp ==
   /\ Ev.ev = "Op"
-  /\ IF st.lost THEN UNCHANGED <<st, err, skipped, cls>>
+  /\ IF st.lost THEN UNCHANGED <<st, err, skipped, cls, dgs, pdg>>
      ELSE
      LET o == Ev.o
          r == Apply(st, o)
@@ -120,9 +121,18 @@ DoOp ==
                     ELSE <<"Guard", "unexpected-panic-in-" \o o.op>>)
               ELSE IF r.res = "panic" THEN OK
               ELSE IF r.ret # Ev.ret THEN <<g, "return-value">>
-              ELSE IF o.op \in {"Commit", "Discard"} THEN PickLaw(WorldDiffs(r.st.base, Ev.pobs, g))
-              ELSE PickLaw(WorldDiffs(r.st.cur, Ev.obs, g) \o TxDiffs(r.st, Ev.obs, g))
+              ELSE IF o.op = "Discard" THEN PickLaw(WorldDiffs(r.st.base, Ev.pobs, g)
+                                                     \o T(Ev.pdg # pdg, <<"Discard", "raw-store-digest-of-the-parent-context">>))
+              ELSE IF o.op = "Commit" THEN PickLaw(WorldDiffs(r.st.base, Ev.pobs, g))
+              ELSE PickLaw(WorldDiffs(r.st.cur, Ev.obs, g) \o TxDiffs(r.st, Ev.obs, g)
+                           (* EVERY key of EVERY store is as it was at the snapshot: nothing written past the StateDB's context survives *)
+                           \o T(o.op = "Revert" /\ o.id < Len(dgs) /\ Ev.obs.dg # dgs[o.id + 1], <<"Revert", "raw-store-digest">>))
      IN /\ Settle(c, r.st)
+        /\ dgs' = IF r.res # "ok" \/ Ev.res # "ok" THEN dgs
+                   ELSE IF o.op = "Snapshot" THEN Append(dgs, Ev.obs.dg)
+                   ELSE IF o.op = "Revert" /\ o.id < Len(dgs) THEN SubSeq(dgs, 1, o.id + 1)
+                   ELSE dgs
+        /\ pdg' = IF o.op = "Commit" /\ r.res = "ok" /\ Ev.res = "ok" THEN "committed" ELSE pdg
         /\ cls' = Bump(Bump(cls, "op." \o o.op), IF r.res = "panic" THEN "panics" ELSE "ops")
 
 TraceNext ==
